@@ -1154,6 +1154,8 @@ def _geometries(rng, n, edges, kind):
             dvec = np.eye(3)[int(rng.integers(0, 3))] * rng.choice([-1.0, 1.0])
         elif kind == "collinear-diagonal":
             dvec = rng.choice([-1.0, 1.0], 3)
+        elif kind == "collinear-near-axis":
+            dvec = np.eye(3)[int(rng.integers(0, 3))] * rng.choice([-1.0, 1.0]) + np.array([0.6, -0.8, 0.3]) * float(rng.choice([3e-7, 1e-6, 4e-5, 1e-3]))
         else:
             dvec = rng.integers(-5, 6, 3).astype(float)
             if not dvec.any():
@@ -1355,8 +1357,8 @@ def task_numeric_generic(prop, tier, seed):
     rng = np.random.default_rng(777 + seed)
     N = 30 if tier == "quick" else 300
     out = []
-    kinds = {"C02": ("generic", "collinear-axis", "collinear-diagonal", "collinear-integer-direction", "two-atom", "one-atom"),
-             "C03": ("generic", "collinear-axis", "collinear-integer-direction"), "C04": ("generic", "collinear-axis")}[prop]
+    kinds = {"C02": ("generic", "collinear-axis", "collinear-diagonal", "collinear-near-axis", "collinear-integer-direction", "two-atom", "one-atom"),
+             "C03": ("generic", "collinear-axis", "collinear-near-axis", "collinear-integer-direction"), "C04": ("generic", "collinear-axis")}[prop]
     for kind in kinds:
         first, nbad, nrun = None, 0, 0
         for t_ in range(N):
@@ -1401,7 +1403,7 @@ def task_numeric_law(prop, tier, seed):
     rng = np.random.default_rng(321 + seed)
     N = 40 if tier == "quick" else 400
     out = []
-    for kind in ("generic", "collinear-axis", "collinear-diagonal", "collinear-integer-direction"):
+    for kind in ("generic", "collinear-axis", "collinear-diagonal", "collinear-near-axis", "collinear-integer-direction"):
         first, nbad, nrun = None, 0, 0
         for t in range(N):
             n = int(rng.integers(3, 8))
